@@ -47,6 +47,10 @@ def demo(tree, path):
 def main():
     base_tree = mk_tree()
     base_failed, base_passed, base_tail = run_tests(base_tree)
+    for _ in range(3):  # one repo test is randomly flaky: take the run with the most passes as the baseline
+        f2, p2, t2 = run_tests(base_tree)
+        if p2 > base_passed:
+            base_failed, base_passed, base_tail = f2, p2, t2
     print("baseline:", base_tail)
     tag = ""
     args = sys.argv[1:]
